@@ -124,4 +124,24 @@ def verifyFinalization (c : Consts) (fc : FConsts) (O : Oracle) (n : Node) (ch :
             cacheVerifyCosi O t1 s.hash s.sig s.mask (lkeys.map Prod.fst) (lkeys.map Prod.snd)
               (consensusThreshold c n lts true)
 
+/-- The (key vector, threshold) pairs `verifyFinalization` hands to `cacheVerifyCosi` for a snapshot
+    of the given round whose certificate timestamp (`certTs`) is `timestamp`, listed as if no attempt
+    succeeded: the primary attempt, and in legacy mode inside the node-operation window, when the
+    vector of the hour before the window is longer, the retry — with the threshold of that vector. -/
+def finalizationAttempts (c : Consts) (n : Node) (ch : Chain) (round timestamp : Nat) :
+    List (List (Nat × Nat) × Nat) :=
+  if timestamp < n.epoch then []
+  else
+    let keys := consensusKeys c n ch round timestamp
+    let primary := (keys, consensusThreshold c n timestamp true)
+    if usePredictive c n timestamp then [primary]
+    else
+      let hour := (timestamp - n.epoch) / c.hour % 24
+      if hour < c.acceptBegin || hour > c.acceptEnd then [primary]
+      else
+        let lts := legacyTs c n timestamp
+        let lkeys := consensusKeys c n ch round lts
+        if lkeys.length ≤ keys.length then [primary]
+        else [primary, (lkeys, consensusThreshold c n lts true)]
+
 end Mixin.Finality
